@@ -272,3 +272,37 @@ func VH_C14_snap() {
 	}
 	_ = ks0
 }
+
+// observers are read-only also across a reset: populate, observe (Keys / GetAll / Len), remove
+// (Clear or Delete), populate again — the answers are those of the plain map subjected to the same
+// sequence, however many changes happened before and after the reset
+func VH_C14_observeResetRefill() {
+	vUnwind(16)
+	s, r := c14Pre("pre")
+	s.Keys()
+	s.GetAll()
+	s.Len()
+	if vNondet[bool]("clear") {
+		vCover("reset-by-clear")
+		s.Clear()
+		r.clear()
+	} else {
+		k := vNondet[string]("dk")
+		s.Delete(k)
+		r.del(k)
+	}
+	n := vChoice("refill", 3)
+	for i := 0; i < n; i++ {
+		k, v := vNondet[string]("rk"), c14Val("rv")
+		if vNondet[bool]("viaMerge") {
+			s.Merge(map[string]any{k: v})
+		} else {
+			s.Set(k, v)
+		}
+		r.set(k, v)
+	}
+	if n > 0 {
+		vCover("refilled")
+	}
+	c14Agree(s, r, "after")
+}
